@@ -201,13 +201,13 @@ func (fi *File) Type() NodeType {
 }
 
 func (fi *File) Mode() (os.FileMode, error) {
+	// Read fi.node under a single read lock. Calling GetNode here would take
+	// nodeLock.RLock a second time, which deadlocks as soon as a writer
+	// (flushUp, setNodeData) queues for the lock between the two acquisitions.
 	fi.nodeLock.RLock()
-	defer fi.nodeLock.RUnlock()
+	nd := fi.node
+	fi.nodeLock.RUnlock()
 
-	nd, err := fi.GetNode()
-	if err != nil {
-		return 0, err
-	}
 	fsn, err := ft.ExtractFSNode(nd)
 	if err != nil {
 		return 0, err
@@ -242,13 +242,11 @@ func (fi *File) SetMode(mode os.FileMode) error {
 
 // ModTime returns the files' last modification time.
 func (fi *File) ModTime() (time.Time, error) {
+	// See Mode: a single, non-reentrant read lock.
 	fi.nodeLock.RLock()
-	defer fi.nodeLock.RUnlock()
+	nd := fi.node
+	fi.nodeLock.RUnlock()
 
-	nd, err := fi.GetNode()
-	if err != nil {
-		return time.Time{}, err
-	}
 	fsn, err := ft.ExtractFSNode(nd)
 	if err != nil {
 		return time.Time{}, err
